@@ -13,7 +13,7 @@ LEVEL = 'model_checking'
 RULE = ('programs = every body tree with <= N operators over the 8 leaves in the context of C05 (callee with a later '
         'clause, caller with alternatives, a dynamic fact) and the meta-call programs of C09 over o/1, m/1, r/2; for '
         'each program EVERY non-empty subset of the fact predicates it uses (z/0 o/1 m/1 k/1, r/2) is re-implemented as a '
-        'registered Python generator function x registration style {inferred, explicit, variadic arity} x yielded '
+        'registered Python generator function x registration style {inferred, explicit, explicit with a generic *args function, variadic arity} x yielded '
         'value {False, True} [x a dynamic fact next to the Python predicate] [x on a fresh engine / on an engine that was queried before and had an earlier version of the predicates registered]; answers compared with RefProlog run on '
         'the all-Prolog program. For every program/subset additionally one run per event j (entry or resumption of a '
         'Python predicate) in which the predicate raises a fresh exception object at its j-th event: the consumer must '
@@ -31,9 +31,9 @@ class Injected(Exception):
     pass
 
 
-SOLS = {('z', 0): [], ('o', 1): [(C(1),)], ('m', 1): [(C(1),), (C(2),)], ('k', 1): [(C(1),)],
+SOLS = {('z', 0): [], ('y0', 0): [()], ('o', 1): [(C(1),)], ('m', 1): [(C(1),), (C(2),)], ('k', 1): [(C(1),)],
         ('r', 2): [(C(1), A('a')), (C(2), A('b')), (C(2), A('c'))]}
-PROLOG = {('z', 0): [], ('o', 1): [(F('o', C(1)), TRUE)], ('m', 1): [(F('m', C(1)), TRUE), (F('m', C(2)), TRUE)],
+PROLOG = {('z', 0): [], ('y0', 0): [(A('y0'), TRUE)], ('o', 1): [(F('o', C(1)), TRUE)], ('m', 1): [(F('m', C(1)), TRUE), (F('m', C(2)), TRUE)],
           ('k', 1): [(F('k', C(1)), CUT), (F('k', C(2)), TRUE)],
           ('r', 2): [(F('r', C(1), A('a')), TRUE), (F('r', C(2), A('b')), TRUE), (F('r', C(2), A('c')), TRUE)]}
 
@@ -70,6 +70,11 @@ def make_py(yp, key, style, yv, events):
         def pred(*args):
             return body(args)
         return pred, -1
+    if style == 'explicit-generic':
+        # one generic function for every arity, registered with the arity given explicitly
+        def pred(*args):
+            return body(args)
+        return pred, n
     if n == 0:
         def pred():
             return body(())
@@ -188,7 +193,7 @@ def check_program(acc, index, clauses, goal, dyn_extra, label):
         exp = [anonymize(a, anon_ix) for a in exp]
     subsets = [s for r in range(1, len(used) + 1) for s in itertools.combinations(used, r)]
     for sub in subsets:
-        for style in ('inferred', 'explicit', 'variadic'):
+        for style in ('inferred', 'explicit', 'explicit-generic', 'variadic'):
             for yv in (False, True):
                 acc.n['evaluations'] += 1
                 acc.n['validated'] += 1
@@ -285,7 +290,7 @@ def plan(tier):
 def meta_programs():
     idx = 0
     X, Y = V('X'), V('Y')
-    goals = [F('o', X), F('m', X), F('r', X, Y), F('r', C(2), Y), A('z')]
+    goals = [F('o', X), F('m', X), F('r', X, Y), F('r', C(2), Y), A('z'), A('y0')]
     for goal in goals:
         for tag, g2, mk, usesL in c09.builtin_goals(goal, 0):
             if tag.startswith('findall-T') and tag not in ('findall-T0', 'findall-T1'):
